@@ -14,7 +14,12 @@ var vC06Paths = []string{"/a", "/a/b", "/a/b/c", "/d", "/d/e"}
 
 // initial trees: which of the paths exist and as what
 func vC06Populate(fs FS) {
-	switch verif.Choice("init", 5) {
+	switch verif.Choice("init", 6) {
+	case 5: // a source tree and a destination that already holds part of a copy of it
+		_ = fs.MkDir("/a/b")
+		_ = fs.WriteFile("/a/b/c", []byte("c"), 0o644)
+		_ = fs.MkDir("/d/a/b")
+		_ = fs.WriteFile("/d/a/b/old", []byte("o"), 0o644)
 	case 0: // empty
 	case 1: // /a/b/c file chain
 		_ = fs.MkDir("/a/b")
@@ -130,6 +135,35 @@ func vSubtree(snap []vNode, root string) []vNode {
 	return out
 }
 
+// vDelivered: the copy of the source tree src (rooted at p) is found at root r:
+// every source entry is there with its kind and content, and everything else
+// below r was there before, unchanged (cp -r merges into an existing directory).
+func vDelivered(src []vNode, p string, before, after []vNode, r string) bool {
+	b, a := vIndex(before), vIndex(after)
+	srcIdx := map[string]vC06Node{}
+	for _, n := range src {
+		srcIdx[n.path[len(p):]] = vC06Node{n.dir, n.data}
+	}
+	for rel, n := range srcIdx {
+		got, ok := a[r+rel]
+		if !ok || got.dir != n.dir || (!n.dir && got.data != n.data) {
+			return false
+		}
+	}
+	for path, n := range a {
+		if !vIsUnder(r, path) {
+			continue
+		}
+		if _, fromSrc := srcIdx[path[len(r):]]; fromSrc {
+			continue
+		}
+		if old, was := b[path]; !was || old != n {
+			return false
+		}
+	}
+	return true
+}
+
 // VerifC06_Programs: programs of 1..2 (thorough 3) calls over a small path alphabet.
 func VerifC06_Programs() {
 	rec, fs := vNewFs()
@@ -213,6 +247,19 @@ func VerifC06_Programs() {
 				}
 				verif.AssertKnown("only_destination_changes", vChangesConfinedTo(before, after, q),
 					"KF-C06-memory-backend-creates-entries-beneath-a-file", vFileOnTheWay(before, q))
+				// a copy that reports success has delivered the source: at the destination itself or,
+				// when that is a directory, under the source's name inside it (the documentation leaves
+				// the choice open; the content of the result is not open)
+				if _, exists := vIndex(before)[p]; exists && err == nil && !vIsUnder(p, q) && !vIsUnder(q, p) {
+					bi := vIndex(before)
+					dirOntoFile := false
+					if dst, there := bi[q]; there && !dst.dir && bi[p].dir {
+						dirOntoFile = true
+					}
+					verif.AssertKnown("a_successful_copy_delivers_the_source",
+						vDelivered(srcBefore, p, before, after, q) || vDelivered(srcBefore, p, before, after, q+"/"+vlBaseName(p)),
+						"KF-C06-directory-copied-onto-a-file-reports-success", dirOntoFile)
+				}
 			}
 			verif.Observe("failed", err != nil)
 		case 8:
